@@ -41,15 +41,19 @@ Abs(a) == IF a >= 0 THEN a ELSE -a
 (***************************************************************************)
 (* Part 1.  ORACLE                                                         *)
 (***************************************************************************)
-(* label_type is case-insensitive (supervised.py 204)                      *)
-Lower(lt) == CASE lt = "C" -> "c" [] lt = "R" -> "r" [] lt = "M" -> "m" [] OTHER -> lt
+(* The spelling of the type letter is not part of its meaning: "C", "R", "M" mean what "c", "r",  *)
+(* "m" mean (supervised.py 204; the class documents c/r/m and its own tests pass "C", "R", "M"), *)
+(* for EVERY kind of source - also when the rows were labelled upstream by LabelRows(label_col,  *)
+(* label_type) and carry the type as it was given.  Norm is the only place the spelling enters.  *)
+Norm(lt)  == CASE lt = "C" -> "c" [] lt = "R" -> "r" [] lt = "M" -> "m" [] OTHER -> lt
+Upper(lt) == CASE lt = "c" -> "C" [] lt = "r" -> "R" [] lt = "m" -> "M" [] OTHER -> lt
 (* a classification label given as a one-element list labels like its element (supervised.py 226-228)   *)
 Single(y) == IF y.t = "lst" THEN y.v[1] ELSE y
 IsNum(y)  == y.t \in {"int", "half"}
 Twice(y)  == IF y.t = "int" THEN 2 * y.v ELSE y.v
 (* "label types c/r/m or inferred": without a label type numeric labels mean regression,   *)
 (* everything else classification (supervised.py 199-202); the data is never empty here    *)
-EffType(lt, data) == IF lt # "none" THEN Lower(lt) ELSE IF IsNum(data[1].y) THEN "r" ELSE "c"
+EffType(lt, data) == IF lt # "none" THEN Norm(lt) ELSE IF IsNum(data[1].y) THEN "r" ELSE "c"
 
 (* "every interaction offers the same action set - exactly the distinct labels of the data": *)
 (* a categorical label carries its declared levels, which ARE the label set of the data     *)
@@ -195,7 +199,8 @@ Input(c) ==
 CONSTANTS MaxRows,    \* single-label example sets have 0..MaxRows examples (text sources 1..MaxRows)
           MaxRowsM,   \* multi-label example sets have 1..MaxRowsM examples
           NL,         \* labels in use: the first NL of each alphabet
-          Srcs, Takes, Shapes, XKs
+          Srcs, Takes, Shapes, XKs,
+          SpellRule   \* "lower" | "upper" | "alt": how a given label type is spelled (see Spelled)
 VARIABLES case, perm, go
 vars == <<case, perm, go>>
 
@@ -203,8 +208,8 @@ vars == <<case, perm, go>>
 (* numeric label types on text that the reader leaves as strings (CSV, LibSVM 'r'), mixed-type labels     *)
 (* (unorderable in Python), nominal labels in sparse ARFF (the reader adds a level "0" by design).        *)
 Combos(src) ==
-  CASE src = "xy" -> ({"int"} \X {"c", "C", "r", "none"}) \cup ({"half"} \X {"c", "r", "R", "none"})
-                     \cup ({"str", "str2", "cat", "lst"} \X {"c", "none"}) \cup ({"mint", "mstr", "mstr2"} \X {"m", "M"})
+  CASE src = "xy" -> ({"int", "half"} \X {"c", "r", "none"})
+                     \cup ({"str", "str2", "cat", "lst"} \X {"c", "none"}) \cup ({"mint", "mstr", "mstr2"} \X {"m"})
     [] src \in {"rows", "rowsH", "sparse"} -> ({"int", "half"} \X {"c", "r", "none"}) \cup ({"str", "str2", "cat"} \X {"c", "none"})
     [] src \in {"csv", "csvH"} -> {"str", "str2"} \X {"c", "none"}
     [] src = "arff"  -> ({"half"} \X {"c", "r", "none"}) \cup ({"str", "str2", "cat"} \X {"c", "none"})
@@ -217,11 +222,19 @@ XKsOf(src, lk) == IF src # "xy" THEN {"-"} ELSE IF IsMulti(lk) THEN XKs \cap {"t
 NRange(src, lk) == IF IsMulti(lk) THEN 1..MaxRowsM ELSE IF Text(src) THEN 1..MaxRows ELSE 0..MaxRows
 Choices(lk) == IF IsMulti(lk) THEN {s \in MSeqs : \A k \in DOMAIN s : s[k] <= NL} ELSE 1..NL
 
+(* How the given label type is spelled (for every source, label kind and construction): SpellRule   *)
+(* "lower" / "upper" spell every given type that way; "alt" alternates with the parity of n + the    *)
+(* first example's label choice, so that every configuration (source, label kind, type, shape, by,   *)
+(* take) is enumerated with both spellings.  The expectation does not depend on it (SpellingIrrelevant). *)
+Spelled(lt, lk, n, lab) ==
+  IF lt = "none" \/ n = 0 \/ SpellRule = "lower" THEN lt
+  ELSE IF SpellRule = "upper" THEN Upper(lt)
+  ELSE IF (n + (IF IsMulti(lk) THEN Len(lab[1]) ELSE lab[1])) % 2 = 1 THEN Upper(lt) ELSE lt
 Init == /\ go = FALSE
         /\ \E src \in Srcs : \E cb \in Combos(src) : \E sh \in ShapesOf(src) : \E by \in Bys(src) :
            \E tk \in TakesOf(src) : \E xk \in XKsOf(src, cb[1]) : \E n \in NRange(src, cb[1]) :
            \E lab \in [1..n -> Choices(cb[1])] :
-             /\ case = [src |-> src, lk |-> cb[1], lt |-> cb[2], nf |-> sh[1], pos |-> sh[2], by |-> by,
+             /\ case = [src |-> src, lk |-> cb[1], lt |-> Spelled(cb[2], cb[1], n, lab), nf |-> sh[1], pos |-> sh[2], by |-> by,
                         take |-> tk, xk |-> xk, n |-> n, lab |-> lab]
              /\ perm = Order(n, tk)
 Next == ~go /\ go' = TRUE /\ UNCHANGED <<case, perm>>
@@ -285,6 +298,10 @@ SameActions == (go /\ Data # <<>>) =>
 ContextIsRowWithoutLabel == (go /\ Dense(case.src)) =>
   \A i \in 1..case.n : /\ InsertAt(X(case, i).v, case.pos, Y(case, i)) = Row(case, i).v
                        /\ Len(X(case, i).v) = case.nf
+(* the expectation is a function of the meaning of the label type, not of its spelling *)
+SpellingIrrelevant == (go /\ Data # <<>>) =>
+  /\ EffType(Upper(case.lt), Data) = T /\ EffType(Norm(case.lt), Data) = T
+  /\ Interactions(EffType(Upper(case.lt), Data), Data, Probes(T, case.lk)) = Out
 (* the oracle is total: every interaction states a reward for every probe action of the label alphabet *)
 OracleTotal == go => \A k \in DOMAIN Out : \A a \in Probes(T, case.lk) : \E p \in Out[k].rw : p[1] = a
 =============================================================================
